@@ -148,13 +148,14 @@ def isAllowed (cfg : Cfg) (f : Filter) (c : Cache) (h : Str) (hdr : Hdr) : Bool 
 inductive GwOut where
   | ok        -- a response without `x-lunar-error`
   | connErr   -- raises `requests.ConnectionError` (or a subclass)
-  | errHdr    -- a response carrying `x-lunar-error` (→ `ProxyErrorException`)
+  | errHdr (v : Str)  -- a response carrying `x-lunar-error: v`, ANY value `v` (also unknown codes,
+                     -- non-numeric or empty values; the key in any letter case) → `ProxyErrorException`
   | appExc    -- raises an exception outside `handle_on`
 deriving Repr, DecidableEq
 
 def GwOut.failed : GwOut → Bool
   | .connErr => true
-  | .errHdr => true
+  | .errHdr _ => true
   | _ => false
 
 /-- What the direct leg does when it is attempted. -/
@@ -223,7 +224,7 @@ def gwLeg (cfg : Cfg) (s2 : St) (c : CallIn) : St × CallOut :=
   | .ok => ({ s2 with cnt := 0 }, ⟨[.gw], .respGw⟩)       -- `__exit__(None)`: reset
   | .appExc => (s2, ⟨[.gw], .raiseGwApp⟩)                 -- not handled: propagate, no count
   | .connErr => directLeg (onError cfg s2) [.gw] c        -- handled: count, swallow, fall through
-  | .errHdr => directLeg (onError cfg s2) [.gw] c
+  | .errHdr _ => directLeg (onError cfg s2) [.gw] c
 
 /-- One intercepted `Session.request`. -/
 def call (cfg : Cfg) (s : St) (c : CallIn) : St × CallOut :=
